@@ -83,6 +83,8 @@ def check_case(case, ctx):
         ctx.label("R-with-inf/huge/denormal-samples")
     if plot.payload.get("k_inf"):
         ctx.label("K-with-infinite-columns")
+    if plot.payload.get("amp", 1.0) != 1.0:
+        ctx.label(f"amplitude:{plot.payload['amp']:g}")
     lo_n = plot.geo_lo[cn]
     kk0 = (p - lo_n) / plot.dx[0][cn] - 0.5
     ctx.nontrivial(L >= 1 and abs(kk0 - round(kk0)) > 1e-9)
@@ -233,13 +235,13 @@ def check_case(case, ctx):
                     mask = two_sided
                     with np.errstate(all="ignore"):
                         exp = S0[j][sl] * (1.0 - w1) + S1[j][sl] * w1 if k0 != k1 else S0[j][sl]
-                        t = 1e-9 * np.maximum(np.abs(exp), 1.0)
+                        # relative to the larger bracketing sample (no absolute floor: small-amplitude fields are asserted as tightly)
+                        sc = np.maximum(np.abs(S0[j][sl]), np.abs(S1[j][sl]))
+                        t = 1e-9 * np.abs(exp) + np.where(np.isfinite(sc), 1e-9 * sc, 0.0) + 1e-300
                         if name == "R" and pp.get("r_specials"):
                             # see C07: with infinite / 1e300 samples only planes strictly between two centres are asserted
                             if k0 == k1:
                                 mask = np.zeros_like(two_sided)
-                            sc = np.maximum(np.abs(S0[j][sl]), np.abs(S1[j][sl]))
-                            t = t + np.where(np.isfinite(sc), 1e-12 * sc, 0.0)
                 with np.errstate(all="ignore"):
                     bad = mask & ~np.isnan(exp) & ~((g == exp) | (np.abs(g - exp) <= t))
                 if bad.any():
